@@ -995,6 +995,7 @@ fn gen_spec(rng: &mut Rng, big: bool) -> ShardSpec {
         flags_mode: rng.below(5) as u32,
         dup_chunks: *rng.pick(&[0u32, 0, 2, 8]),
         overlap_first: None,
+        zero_byte_only: !big && rng.chance(1, 12),
     }
 }
 
